@@ -740,15 +740,6 @@ class Connection(ExportImport):
         for oid in creating:
             o = self._cache.get(oid)
             if o is not None:
-                if o._p_changed is None:
-                    # A ghost: the cache clean-up of a savepoint can turn
-                    # a new object it has just saved into one.  Once it
-                    # is disowned nothing can load its state any more:
-                    # load it while the savepoint data are still there.
-                    try:
-                        o._p_activate()
-                    except Exception:
-                        pass
                 del self._cache[oid]
                 if o._p_changed:
                     o._p_changed = False
